@@ -18,6 +18,10 @@
 //	                   a truncated or made-up value); "fg" / "fn" = 32 bytes, the length this server issues
 //	     | "st"<d>     Put(dst, copy of the session the client holds for destination d, unless wiped) (stale id)
 //	     | "sl"        the server's cache is lost (replaced by an empty one)
+//	     | "sn"        the server's cache is lost and replaced by an empty FOREIGN SessionCache implementation
+//	                   that reports a miss as (nil, true) instead of (nil, false) (the interface does not
+//	                   forbid it; hits are (state, true) as usual): a server must treat that answer as a
+//	                   miss — full handshake, no panic (finding F65)
 //	suites = hex ids joined by "."   (Config.CipherSuites)
 //	fault  = "ok" | "sf" (man in the middle damages the server's CCS+Finished flight)
 //	              | "cf" (… the client's CCS+Finished flight)
@@ -157,6 +161,13 @@ type Entry struct {
 	// storage of a session object seen for the first time, of a connection that completed)
 	Decl string
 }
+
+// missAsNilTrue is a foreign SessionCache implementation: a plain lookup whose second result is always
+// true, so a miss is answered (nil, true). Hits and Puts are the inner cache's.
+type missAsNilTrue[S comparable] struct{ inner Cache[S] }
+
+func (m missAsNilTrue[S]) Get(k string) (S, bool) { s, _ := m.inner.Get(k); return s, true }
+func (m missAsNilTrue[S]) Put(k string, s S)      { m.inner.Put(k, s) }
 
 // Rec wraps a cache and records every operation.
 type Rec[S comparable] struct {
@@ -440,6 +451,8 @@ func (r *Runner[S]) Step(i int, c Conn) Out {
 			}
 		case a == "sl":
 			r.srv[c.Server] = r.ops.NewLRU(r.SCap)
+		case a == "sn":
+			r.srv[c.Server] = missAsNilTrue[S]{r.ops.NewLRU(r.SCap)}
 		default:
 			panic("unknown pre-action " + a)
 		}
